@@ -50,7 +50,12 @@ func (f *DelayFilter) Run(ctx context.Context) { //nolint:cyclop
 		case <-ctx.Done():
 			return
 		case <-f.push:
-			next := f.queue.peek().(timedChunk) //nolint:forcetypeassert
+			next, ok := f.queue.peek().(timedChunk)
+			if !ok {
+				// The timer case may already have forwarded the chunk this
+				// notification was sent for: nothing left to schedule.
+				continue
+			}
 			if !timer.Stop() {
 				<-timer.C
 			}
